@@ -872,6 +872,7 @@ class Interp:
         elif isinstance(target, ast.Attribute):
             base = self.eval(target.value, env)
             if base.k == 'obj':
+                v = tag_owned(v, target.attr)
                 if self.weak > 0 and target.attr in base.attrs:
                     base.attrs[target.attr] = join(base.attrs[target.attr], v)
                 else:
@@ -1612,6 +1613,26 @@ def _flat_labels(label):
 def env_key(env):
     return tuple(sorted((n, v.key()) for n, v in env.items()
                         if not n.startswith('$') and isinstance(v, AV)))
+
+
+def tag_owned(v, attr, seen=None):
+    """Storage kept in an attribute of an object is owned by the object:
+    label it ('S', attr) so that later writes through any alias are seen."""
+    seen = seen if seen is not None else set()
+    if not isinstance(v, AV) or id(v) in seen:
+        return v
+    seen.add(id(v))
+    if v.k == 'arr':
+        return v.copy(org=v.org | frozenset([('S', attr)]))
+    if v.k in ('list', 'tuple') and v.items is not None:
+        v.items = [tag_owned(x, attr, seen) for x in v.items]
+        if v.k == 'list' and v.label is None:
+            v.label = ('S', attr)
+        return v
+    if v.k in ('list', 'tuple') and v.elem is not None:
+        v.elem = tag_owned(v.elem, attr, seen)
+        return v
+    return v
 
 
 def _heap_children(v):
